@@ -401,7 +401,7 @@ def watch_session(ctx, key, info, pkg, p2, wroot, want, home) -> bool:
     os.makedirs(os.path.join(wroot, "home"), exist_ok=True)
     w = C20.Watcher(wroot, os.path.join(wroot, "home"), common.build_yardl(), pkgdir=pkg.dir)
     try:
-        if not w.wait_quiescent(1, limit_s=30):
+        if not w.wait_quiescent_patient(1, limit_s=30):
             if not w.alive():
                 ctx.violation("watcher-died:startup", "%s: watcher exited during the initial generation" % key, {"case_dir": wroot})
                 return False
@@ -411,7 +411,7 @@ def watch_session(ctx, key, info, pkg, p2, wroot, want, home) -> bool:
         for rel in changed:
             with open(os.path.join(wroot, rel), "w") as f:
                 f.write(f1[rel])
-        ok = w.wait_quiescent(starts + 1, limit_s=25)
+        ok = w.wait_quiescent_patient(starts + 1, limit_s=25)
         ctx.ev()
         ctx.count("watch-sessions")
         if not ok:
